@@ -1,7 +1,7 @@
 #!/usr/bin/env python3
 """C18 regression: stand-alone replays of the five repaired findings (F1-F5) on REAL file systems.
 
-usage:  GIVERIF_REPO=<tree> /venv/bin/python c18_replays.py [F0 F1 F2 F3 F4 F5 M1 R1]
+usage:  GIVERIF_REPO=<tree> /venv/bin/python c18_replays.py [F0 F1 F2 F3 F4 F5 M1 M2 R1]
 (run by harness/c18.py in every tier; each line of output is  <tag> ok|VIOLATED|skipped <key> / details)
 
 Only the giscanner code of <tree> is run (Transformer._parse_include / CacheStore.store / load and the
@@ -18,6 +18,7 @@ device, so that a rename from TMPDIR into the cache directory really fails with 
   F5 the .gir is replaced by a file carrying an mtime older than the entry (fae7ad8)
   M1 (only when asked for) two different files named by '../Dep-1.0.gir' and 'Dep-1.0.gir' carry one mtime: each
      scanner must see the file it names (no finding of the unchanged tree; guards the entry-name function)
+  M2 (only when asked for) one relative path, two working directories, two files with one mtime (382125e)
   R1 (only when asked for) the recorded finding: a new version carrying the SAME mtime as the version just read
 
 exit 0: no finding reproduces;  1: at least one does.
@@ -405,6 +406,37 @@ def m1_other_file():
         e.close()
 
 
+def m2_two_directories():
+    """two projects, each with its own Dep-1.0.gir (different contents, one mtime); a scanner run in project A
+    includes the relative path 'Dep-1.0.gir', then a scanner run in project B includes 'Dep-1.0.gir': the same
+    spelling, another file.  Each must see the contents of the file the path names in ITS working directory
+    (repaired by 382125e: the entry is keyed on the absolute path)."""
+    e = Env(False)
+    cwd = os.getcwd()
+    try:
+        old = int(time.time()) - 3600
+        for d, text in (('projA', V1), ('projB', V2)):
+            os.makedirs(os.path.join(e.root, d))
+            write(os.path.join(e.root, d, 'Dep-1.0.gir'), text)
+            os.utime(os.path.join(e.root, d, 'Dep-1.0.gir'), (old, old))
+        seen = []
+        for d, spelling, want in (('projA', 'Dep-1.0.gir', OLD), ('projB', 'Dep-1.0.gir', NEW),
+                                  ('projA', './Dep-1.0.gir', OLD), ('projB', '../projA/Dep-1.0.gir', OLD),
+                                  ('projA', '../projB/Dep-1.0.gir', NEW)):
+            os.chdir(os.path.join(e.root, d))
+            t = M.transformer.Transformer(M.ast.Namespace('Main', '1.0'))
+            assert t._cachestore is not None
+            got = names(t._parse_include(spelling))
+            seen.append((d, spelling, got, got == want))
+        bad = [x for x in seen if not x[3]]
+        return bool(bad), ('both files carry one mtime: ' +
+                           '; '.join('in %s: %s -> %s%s' % (d, sp, got, '' if ok else ' (NOT the contents of that file)')
+                                     for d, sp, got, ok in seen))
+    finally:
+        os.chdir(cwd)
+        e.close()
+
+
 ALL = [('F0', 'sanity:an-unchanged-file-is-served-from-the-cache', f0_effective),
        ('F1', 'repaired:parse-read-before-modification-stamped-at-store-time', f1_stamp),
        ('F2', 'repaired:source-modified-within-the-timestamp-of-the-entry', f2_equal),
@@ -412,6 +444,7 @@ ALL = [('F0', 'sanity:an-unchanged-file-is-served-from-the-cache', f0_effective)
        ('F4', 'repaired:cross-device-entry-visible-before-copystat', f4_xdev_stale),
        ('F5', 'repaired:source-replaced-by-a-file-carrying-an-older-mtime', f5_older_mtime),
        ('M1', 'multi-source:entry-of-another-file-with-the-same-mtime', m1_other_file),
+       ('M2', 'repaired:one-relative-path-from-two-working-directories', m2_two_directories),
        ('R1', 'C18_fresh:two-source-versions-with-one-mtime-and-a-read-in-between', r1_same_mtime)]
 DEFAULT = ['F0', 'F1', 'F2', 'F3', 'F4', 'F5']
 
